@@ -678,7 +678,10 @@ static void gen_numbers(vx::Explorer& ex, Model& m) {
   m.vars[0].lb = x; m.vars[0].ub = INFINITY;
   m.vars[1].lb = -INFINITY; m.vars[1].ub = x;
   m.vars[2].lb = m.vars[2].ub = x;
-  m.cons.resize(2); m.objs.resize(1);
+  m.cons.resize(3); m.objs.resize(2);
+  // constant at the root of a C / O segment (objective constant term); zero there means "none"
+  m.cons[2].has_e = true; m.cons[2].e = N(x); m.cons[2].ub = 0;
+  m.objs[1].has_e = true; m.objs[1].e = N(x); m.objs[1].type = 1;
   double y = 1.5;
   m.cons[0].lb = std::min(x, y); m.cons[0].ub = std::max(x, y);
   m.cons[0].lin = {{0, x}, {2, 1}};
@@ -822,7 +825,8 @@ static void run_family(const Family& fam, long long start, const std::string& st
   ex.run_all([&] {
     Model m; fam.gen(ex, m);
     long long my = idx++;
-    if (my < start || !S.mine(my)) return;
+    // multiplicative hash so that a shard does not own a fixed residue of the last choice points
+    if (my < start || !S.mine((long long)(((unsigned long long)my * 0x9E3779B1ull >> 8) & 0xffffff))) return;
     if (m.label == "pair-illtyped") { R.stat("pairs_illtyped_skipped"); return; }
     std::string tr = ex.trace_str();
     g_sh->cur = my; std::snprintf(g_sh->trace, sizeof g_sh->trace, "%s", tr.c_str());
@@ -840,7 +844,7 @@ static void run_family(const Family& fam, long long start, const std::string& st
       R.sample("{\"family\":\"" + fam.name + "\",\"label\":\"" + vx::jesc(m.label) + "\",\"trace\":\"" + tr + "\",\"model_items\":" +
                jarr(expected_transcript(m, fam.cfgs[0]), 30) + "}");
   });
-  R.stat("models_enumerated_" + fam.name, idx);
+  if (S.i == 0 && start == 0) R.stat("family_size_" + fam.name, idx);
 }
 
 // ------------------------------------------------------------------ formatter-level lattice
